@@ -339,6 +339,38 @@ def buildTable (labels : List CaseLabel) : Option LpcOps.SwTable :=
   else
     some (.sorted (sorted.flatMap (fun e => if e.1 == e.2.1 then [(e.1, e.2.2)] else [(e.1, 1), (e.2.1, e.2.2)])))
 
+/-! ### string switches: labels are interned at compile time, the table holds their ADDRESSES in ascending order,
+    `case 0:` is the entry with address 0 (ZERO_AS_STR_CASE_LABEL); ranges are not allowed -/
+
+/-- table key of a label of a string switch (`addr` = address of the shared string) -/
+def strLabelKey (addr : List UInt8 → Int) : CaseLabel → Option Int
+  | .str s => some (addr s)
+  | .num n => if n == 0 then some 0 else none
+  | _ => none
+
+def strEntries (addr : List UInt8 → Int) (labels : List CaseLabel) : List (Int × Nat) :=
+  labels.zipIdx.filterMap (fun p => (strLabelKey addr p.1).map (fun k => (k, p.2 + 2)))
+
+/-- prepare_cases (string_case_compare) + i_generate_node: entries sorted by address -/
+def strTable (addr : List UInt8 → Int) (labels : List CaseLabel) : List (Int × Nat) := sortEntries (strEntries addr labels)
+
+/-- f_switch on a string table: the int 0 searches address 0; a string is looked up in the shared string table first
+    (`findstring`; a shared string is its own address) — NOT FOUND THERE means no label can be equal to it: `default`
+    at once, WITHOUT searching (address 0 would hit `case 0:`); otherwise binary search for its address -/
+def strSwitchFind (addr : List UInt8 → Int) (interned : List UInt8 → Bool) (labels : List CaseLabel) (v : Value R) :
+    Res (Option Nat) :=
+  let dflt := labels.findIdx? (fun l => l == .dflt)
+  let go := fun (s : Int) => match LpcOps.switchLookup (.sorted (strTable addr labels)) s with
+    | some a => some (a - 2)
+    | none => dflt
+  match v with
+  | .int n => if n == 0 then .ok (go 0) else .err
+  | .str x => if interned x then .ok (go (addr x)) else .ok dflt
+  | _ => .err
+
+/-- an injective, non-zero address assignment for execution (which one is irrelevant: `string_switch_agrees`) -/
+def addrExec (s : List UInt8) : Int := (s.foldl (fun acc b => acc * 257 + b.toNat + 1) 0 : Nat) + 2
+
 /-- f_switch through the compiled table: index of the selected arm -/
 def switchFind (labels : List CaseLabel) (v : Value R) : Res (Option Nat) :=
   let dflt := labels.findIdx? (fun l => l == .dflt)
@@ -351,12 +383,8 @@ def switchFind (labels : List CaseLabel) (v : Value R) : Res (Option Nat) :=
       | none => .ok dflt
     | _ => .err
   | none =>
-    -- string table: sorted by the address of the shared string; the search is by address, which is equality of
-    -- contents for shared strings (the order of addresses is not modelled)
-    match v with
-    | .int n => if n == 0 then .ok (match labels.findIdx? (fun l => l == .num 0) with | some i => some i | none => dflt) else .err
-    | .str s => .ok (match labels.findIdx? (fun l => l == .str s) with | some i => some i | none => dflt)
-    | _ => .err
+    -- string table; interned = at least the labels (strings interned elsewhere are found but are in no table entry)
+    strSwitchFind addrExec (fun s => labels.any (fun l => l == .str s)) labels v
 
 end Frontend
 
